@@ -436,3 +436,50 @@ func VerifC11CloseTwice(withCall int) {
 	verifReach("end")
 }
 
+
+// VerifC10Large (C10): an OFFER bearing the call's transaction id and hardware address whose wire
+// form is exactly `size` bytes (a long option 224, split per RFC 3396, ends right before End)
+// arrives at a symbolic instant inside the schedule: the call returns that datagram, whole. Sizes up
+// to MaxMessageSize (1500) are what the client announces it takes.
+func VerifC10Large(size, tries int) {
+	k := &verifCall{conn: newVerifConn(), tries: tries, ctxAt: -1, closeAt: -1}
+	k.T = int64(verifU32("T"))
+	verifAssume(k.T >= 1)
+	c, err := NewWithConn(k.conn, verifHW, WithTimeout(time.Duration(k.T)), WithRetry(tries))
+	verifAssert(err == nil, "client-created")
+	k.c = c
+	k.req = verifRequest()
+	k.dest = verifDest()
+	w := k.T
+	for i := 0; i < tries; i++ {
+		k.budget += w
+		w += w
+	}
+	v := -1
+	for cand := 0; cand <= size; cand++ {
+		if 240+3+cand+2*((cand+254)/255)+1 == size {
+			v = cand
+		}
+	}
+	verifAssert(v >= 4, "harness-size-reachable")
+	val := append(verifBytes("val.head", 2), make([]byte, v-4)...)
+	val = append(val, verifBytes("val.tail", 2)...)
+	offer := &dhcpv4.DHCPv4{OpCode: dhcpv4.OpcodeBootReply, HWType: 1, TransactionID: verifXID, ClientHWAddr: verifHW,
+		Options: dhcpv4.Options{53: []byte{2}, 224: val}}
+	want := offer.ToBytes()
+	verifAssert(len(want) == size, "harness-size-reached")
+	rat := int64(verifU64("reply.at"))
+	verifAssume(rat >= 0)
+	verifAssume(rat < k.budget)
+	k.conn.deliver(rat, want)
+	k.start = verifNow()
+	k.resp, k.err = c.SendAndRead(newVerifCtx(), k.dest, k.req, IsMessageType(dhcpv4.MessageTypeOffer))
+	k.end = verifNow()
+	verifAssert(k.resp != nil && k.err == nil, "acceptable-datagram-ends-the-call")
+	if k.resp != nil {
+		verifAssert(k.end-k.start == rat, "returns-when-the-acceptable-datagram-arrives")
+		verifAssert(verifSame(k.resp.ToBytes(), want), "response-is-the-datagram-that-arrived")
+	}
+	c.Close()
+	verifReach("end")
+}
